@@ -168,6 +168,14 @@ def roundMemory (memory threads : Nat) : Nat :=
   let m := memory / (4 * threads) * (4 * threads)
   if m < 8 * threads then 8 * threads else m
 
+/-- the same computation at the code's widths: `memory uint32`, `threads uint8` widened with `uint32(threads)`
+    *before* the multiplication (`syncPoints * uint32(threads)`; a product taken in uint8 would wrap for
+    threads ≥ 64) -/
+def roundMemoryGo (memory : UInt32) (threads : UInt8) : UInt32 :=
+  let p := threads.toUInt32
+  let m := memory / (4 * p) * (4 * p)
+  if m < 2 * 4 * p then 2 * 4 * p else m
+
 structure Ctx where
   mode : Nat         -- 1 = argon2i, 2 = argon2id
   time : UInt32
@@ -255,7 +263,7 @@ def deriveKey (mode : Nat) (password salt secret data : Bytes) (time memory thre
     match initHash password salt secret data time memory threads keyLen mode with
     | none => .panic
     | some h0 =>
-      let m := roundMemory memory threads
+      let m := (roundMemoryGo (UInt32.ofNat memory) (UInt8.ofNat threads)).toNat
       let c : Ctx := { mode := mode, time := UInt32.ofNat time, memory := UInt32.ofNat m,
                        threads := UInt32.ofNat threads, lanes := UInt32.ofNat (m / threads),
                        segments := UInt32.ofNat (m / threads / 4) }
